@@ -219,6 +219,12 @@ def c17(ctx):
     V.table_compare(ctx, beh, name="behaviours", as_behaviours=True)
     summ = V.gen_traces(ctx, shards=8)
     V.validate(ctx, "Trace_C17", summ, V.default_sig)
+    if thorough:
+        # structured fuzzing: the fuzzer's bytes drive the history generator; the corpus is regenerated and judged
+        rows, nrows = V.go_fuzz(ctx, "FuzzC17", 120, parallel=8)
+        if nrows:
+            summf = V.gen_traces(ctx, shards=8, name="trace-fuzz", extra=["-in", rows])
+            V.validate(ctx, "Trace_C17", summf, V.default_sig, par=8)
     return V.finish(ctx, "model_checking",
                     rule="MC: all call histories up to depth 4 (5 thorough) over packets (PUSI x has-payload x 4 payloads), Reset, and 12 threshold/failing predicates; "
                          "invariants restate C17 from the recorded history. B2: TLC-simulated behaviours of the specification (depth 10) with expected result class, bytes and held packets replayed on a real accumulator. B3: random histories (2..10 calls) of WritePacket/Reset on a real accumulator with 188-byte packets "
@@ -274,6 +280,12 @@ def c10(ctx):
     V.table_compare(ctx, beh, name="behaviours", as_behaviours=True)
     summ = V.gen_traces(ctx, shards=12)
     V.validate(ctx, "Trace_C10", summ, c10_sig, par=12)
+    if thorough:
+        # structured fuzzing: the fuzzer's bytes drive the history generator; the corpus is regenerated and judged
+        rows, nrows = V.go_fuzz(ctx, "FuzzC10", 120, parallel=8)
+        if nrows:
+            summf = V.gen_traces(ctx, shards=8, name="trace-fuzz", extra=["-in", rows])
+            V.validate(ctx, "Trace_C10", summf, c10_sig, par=8)
     return V.finish(ctx, "model_checking",
                     rule="MC: all ProcessDescriptor/Close histories to depth 4 (5) over a descriptor alphabet (7 (14) types x event id x PTS incl. none x segexp x signal id), ring length 2; "
                          "C10's clauses as invariants and per-transition action properties. B2: TLC simulates behaviours of the specification (depth 12, 14 types) and prints the expected error class / closed ids / "
@@ -327,6 +339,12 @@ def c03(ctx):
     V.tlc_emit(ctx, "Gen_C03", rows, cfg="Gen_C03_thorough.cfg" if thorough else "Gen_C03.cfg")
     summ2 = V.gen_traces(ctx, shards=12, name="trace-b2", extra=["-in", rows])
     V.validate(ctx, "Trace_C03", summ2, c03_sig, par=12)
+    if ctx.tier == "thorough":
+        # structured fuzzing: the fuzzer's bytes drive the history generator; the corpus is regenerated and judged
+        rows, nrows = V.go_fuzz(ctx, "FuzzC03", 120, parallel=8)
+        if nrows:
+            summf = V.gen_traces(ctx, shards=8, name="trace-fuzz", extra=["-in", rows])
+            V.validate(ctx, "Trace_C03", summf, c03_sig, par=8)
     if ctx.skipped > 0.25 * max(1, ctx.events):
         raise V.Broken("%d of %d events were skipped because `before` was not canonical" % (ctx.skipped, ctx.events))
     return V.finish(ctx, "model_checking",
